@@ -136,6 +136,10 @@ func VerifReq_Cooperative() {
 			prefixDiverges = true
 		}
 	}
+	// ... and, more precisely, the responder (told to skip the first N blocks,
+	// which it counts over its own traversal) withholds a block that only it
+	// can supply
+	neededWithheld := false
 	news := e.RequestsTo(pA, rq.ID, graphsync.RequestTypeNew)
 	desc := ""
 	for i := 0; i < n; i++ {
@@ -158,6 +162,20 @@ func VerifReq_Cooperative() {
 			// caller's business and passes through
 			verifrt.Assert(has == (want > 0) || (userSupplied && has), "C24 do-not-send-first-blocks extension present for a zero count or absent for a non-zero count")
 			items, status := RefResponder(dag, func(i int) bool { return remote[i] }, skip)
+			for _, l := range ref {
+				if !l.Remote {
+					continue
+				}
+				sent := false
+				for _, it := range items {
+					if it.Link == l.Link && it.Block {
+						sent = true
+					}
+				}
+				if !sent {
+					neededWithheld = true
+				}
+			}
 			// split into 1..MSGS messages
 			msgs := 1 + verifrt.Choose("messages", verifrt.Param("MSGS", 2))
 			cut := make([]int, 0, msgs)
@@ -222,27 +240,27 @@ func VerifReq_Cooperative() {
 			wantMissing = append(wantMissing, l)
 		}
 	}
-	verifrt.AssertKF(len(got) == len(wantLoads), "C02 number of blocks delivered differs from the blocks either peer can supply", "C02-F2", prefixDiverges)
+	verifrt.AssertKF(len(got) == len(wantLoads), "C02 number of blocks delivered differs from the blocks either peer can supply", "C02-F2", prefixDiverges && neededWithheld)
 	for i := range wantLoads {
 		if i < len(got) {
-			verifrt.AssertKF(got[i].Link == wantLoads[i].Link && got[i].Path == wantLoads[i].Path, "C02 blocks delivered out of traversal order or at the wrong path", "C02-F2", prefixDiverges)
+			verifrt.AssertKF(got[i].Link == wantLoads[i].Link && got[i].Path == wantLoads[i].Path, "C02 blocks delivered out of traversal order or at the wrong path", "C02-F2", prefixDiverges && neededWithheld)
 		}
 	}
 	nMissingErrs := 0
 	for _, err := range rq.Errors {
 		if me, ok := err.(graphsync.RemoteMissingBlockErr); ok {
 			if nMissingErrs < len(wantMissing) {
-				verifrt.AssertKF(kit.LinkIndex(me.Link) == wantMissing[nMissingErrs].Link, "C02 missing-block error reported for the wrong link", "C02-F2", prefixDiverges)
+				verifrt.AssertKF(kit.LinkIndex(me.Link) == wantMissing[nMissingErrs].Link, "C02 missing-block error reported for the wrong link", "C02-F2", prefixDiverges && neededWithheld)
 			}
 			nMissingErrs++
 		} else {
-			verifrt.AssertKF(false, "C02 unexpected error on a cooperative exchange: "+err.Error(), "C02-F2", prefixDiverges)
+			verifrt.AssertKF(false, "C02 unexpected error on a cooperative exchange: "+err.Error(), "C02-F2", prefixDiverges && neededWithheld)
 		}
 	}
-	verifrt.AssertKF(nMissingErrs == len(wantMissing), "C02 missing-block errors do not match exactly the links neither side can supply", "C02-F2", prefixDiverges)
+	verifrt.AssertKF(nMissingErrs == len(wantMissing), "C02 missing-block errors do not match exactly the links neither side can supply", "C02-F2", prefixDiverges && neededWithheld)
 	for _, l := range ref {
 		if l.Remote {
-			verifrt.AssertKF(l.Link < len(e.Store.Has) && e.Store.Has[l.Link], "C02 a block obtained from the responder was not stored locally", "C02-F2", prefixDiverges)
+			verifrt.AssertKF(l.Link < len(e.Store.Has) && e.Store.Has[l.Link], "C02 a block obtained from the responder was not stored locally", "C02-F2", prefixDiverges && neededWithheld)
 			verifrt.Cover("remote-block-stored")
 		}
 	}
